@@ -497,6 +497,54 @@ def shard_limits(prop: str, tier: str, seed: int) -> dict[str, Any]:
     return c.export()
 
 
+TZ_PROBE = r"""
+import json, sys
+from datetime import timedelta
+from vlib.world import World
+from stabilize import SqliteQueue
+from stabilize.queue.messages import StartWorkflow
+out = []
+w = World()
+q2 = SqliteQueue("sqlite:///:memory:", table_name="queue_messages")
+w.queue.push(StartWorkflow(execution_id="NOW"))
+a = w.queue.poll_one()
+if a is None:
+    out.append(["deliverable-not-delivered", "a message pushed without delay is not delivered"])
+else:
+    b = q2.poll_one()
+    if b is not None:
+        out.append(["two-holders", "a freshly claimed message (lock 60 s) was handed to a second worker at once"])
+    w.queue.ack(a)
+w.queue.push(StartWorkflow(execution_id="LATER"), timedelta(hours=1))
+c = w.queue.poll_one()
+if c is not None:
+    out.append(["delivered-before-due", "a message pushed with a delay of one hour was delivered immediately"])
+print("TZPROBE " + json.dumps(out))
+"""
+
+
+def shard_tz(prop: str, tier: str, seed: int) -> dict[str, Any]:
+    """The queue's clock arithmetic must not depend on the process time zone: the same three-step probe (claim excludes a second
+    poller; an undelayed message is deliverable; a delayed one is not) in sub-processes with TZ west and east of UTC."""
+    import os
+    import subprocess
+    import sys
+
+    c = Campaign(prop, tier, seed, LEVEL)
+    for tz in ("UTC", "EST5EDT", "CET-1CEST", "JST-9", "NZST-12NZDT"):
+        env = dict(os.environ)
+        env["TZ"] = tz
+        r = subprocess.run([sys.executable, "-c", TZ_PROBE], env=env, capture_output=True, text=True, timeout=120)
+        line = [ln for ln in r.stdout.splitlines() if ln.startswith("TZPROBE ")]
+        if not line:
+            c.harness_error(f"tz probe {tz} produced no result: {r.stderr[-300:]}")
+            continue
+        for bucket, detail in json.loads(line[0][len("TZPROBE "):]):
+            c.violation(f"{bucket}|tz", {"kind": "tz", "tz": tz}, f"TZ={tz}: {detail}")
+        c.case(("c08tz", tz), tz != "UTC", ["time-zone", f"tz:{tz}"])
+    return c.export()
+
+
 def _dispatch(fn, a):  # noqa: ANN001
     return fn(*a)
 
@@ -509,6 +557,7 @@ def run(c: Campaign, jobs: int) -> None:
     args = [(shard, (c.prop, c.tier, c.seed * 1000 + k, max(1, n // shards), steps)) for k in range(shards)]
     args.append((shard_fixed, (c.prop, c.tier, c.seed)))
     args.append((shard_limits, (c.prop, c.tier, c.seed)))
+    args.append((shard_tz, (c.prop, c.tier, c.seed)))
     for nmsg, nw, sw, P in ((1, 2, False, 3), (2, 2, False, 3), (1, 3, False, 2), (2, 2, True, 2), (2, 3, True, 1)):
         args.append((shard_pollers, (c.prop, c.tier, c.seed, nmsg, nw, sw, P if quick else P + 1)))
     for scenario, P in (("two-sweeps", 3), ("sweep+move", 3), ("two-replays", 3), ("replay+sweep", 3), ("three-sweeps", 2)):
@@ -520,7 +569,8 @@ def run(c: Campaign, jobs: int) -> None:
               "and, for conservation, after every commit inside every operation. Non-trivial = the history contains a lock lapse followed by a re-poll, "
               "a move to the DLQ, or a poll while the other worker holds a message. Distinct = hash of the operation list.")
     c.assumptions += [
-        "time is owned by the harness: delays and lock expiry happen only when the harness rewrites deliver_at / locked_until; TZ=UTC",
+        "time is owned by the harness: delays and lock expiry happen only when the harness rewrites deliver_at / locked_until; the main process runs with TZ=UTC, "
+        "a three-step probe (claim excludes a second poller, undelayed deliverable, delayed not) runs in sub-processes under four other time zones",
         "generated histories use the default limits (queue and message max_attempts 10); other queue limits (1, 2, 3, 5, 12) are covered by the attempt-limit grid; ties on deliver_at are not ordered by the model",
         "sequential histories use two SqliteQueue instances on one connection; concurrent pollers (2-3 workers, optional DLQ sweep / heartbeat) run under the interleaving engine with a bounded number of pre-emptions",
         "a stale holder's ack deletes the row another worker now holds: at-least-once, recorded as acknowledged (not loss)",
